@@ -94,6 +94,32 @@ fn check_one<CS: CLCiphersuite>(rep: &Report, ck: &str, c: &Case, keys: &[ClKey]
     if serde_json::from_str::<Signature<CL03<CS>>>(&js).ok().as_ref() != Some(&sig) {
         return rep.fail(ck, "signature-json-roundtrip", "serde_json round trip changes the signature".into(), cj(json!(null)));
     }
+    // byte round trip of signatures with special component values (leading zero bytes, tiny, maximal)
+    {
+        let nbytes = ((CS::ln + 7) / 8) as usize;
+        let mut specials: Vec<(&str, Integer)> = vec![
+            ("v = 1", Integer::from(1)),
+            ("v = 255", Integer::from(255)),
+            ("v with one leading zero byte", (Integer::from(1) << (8 * (nbytes as u32 - 1))) - 1u32),
+            ("v with two leading zero bytes", (Integer::from(1) << (8 * (nbytes as u32 - 2))) - 5u32),
+            ("v = N - 1", (nn - 1u32).complete()),
+        ];
+        let mut rv = clmath::int_from_seed(&mut st, CS::ln - 12);
+        rv.set_bit(CS::ln - 13, true);
+        specials.push(("random v with a zero top byte", rv));
+        for (what, v2) in specials {
+            for (e2, s2) in [(e.clone(), s.clone()), (Integer::from(3), Integer::from(0)), ((Integer::from(1) << CS::le) - 1u32, (Integer::from(1) << CS::ls) - 1u32)] {
+                let sg = sig_from::<CS>(&e2, &s2, &v2);
+                rep.eval(ck, 1);
+                let ok = catch(|| Signature::<CL03<CS>>::from_bytes(&sg.to_bytes()) == sg);
+                match ok {
+                    Ok(true) => {}
+                    Ok(false) => return rep.fail(ck, "signature-bytes-roundtrip:special-values", format!("from_bytes(to_bytes(sig)) != sig for {}", what), cj(json!({"what": what}))),
+                    Err(p) => return rep.fail(ck, "signature-bytes-roundtrip:special-values:panic", format!("byte round trip panics for {}: {}", what, p), cj(json!({"what": what}))),
+                }
+            }
+        }
+    }
     // e: prime of exactly le bits, coprime to the group order; s of exactly ls bits
     let phi = ((&sk.p - 1u32).complete()) * ((&sk.q - 1u32).complete());
     rep.eval(ck, 4);
